@@ -58,9 +58,11 @@ def _setup(case):
     if not (-180.0 <= lon1 <= 180.0):
         raise Discard()
     z2 = z1
+    lat2, lon2 = cv.grid2geo(z1, e2, n2, hemi, ell)[:2]
+    if not (-180.0 + 1e-6 <= lon2 <= 180.0 - 1e-6) or not (-180.0 + 1e-6 <= lon1 <= 180.0 - 1e-6):
+        raise Discard()      # the quantifier excludes grid points whose longitude falls outside [-180, 180]
     if case["adj"]:
         # re-express point 2 in the neighbouring zone (towards the side it lies on)
-        lat2, lon2 = cv.grid2geo(z1, e2, n2, hemi, ell)[:2]
         z2 = z1 + (1 if lon2 >= _cm(z1) else -1)
         if not (1 <= z2 <= 60):
             raise Discard()
